@@ -256,7 +256,7 @@ theorem or_branch_completes (fuel : Nat) (s : VM) (f : FUid) (i : Inst) (x : Ins
       simp only [Bool.not_eq_true', List.contains_eq_mem, decide_eq_false_iff_not] at hm
       exact absurd hujmem hm
   have hstep2 := slideStep_gone (fuel + 2) s1 f uj.1 i1 x1 cfg F1 hgone
-  refine ⟨s1, i1, x1, ?_, F1, ho1, ?_, hn1⟩
+  refine ⟨s1, i1, x1, ?_, F1, ho1, ?_, hn1.1⟩
   · simp only [slide, slideLoop, bind, EStateM.bind, hstep, hstep2, Bool.false_eq_true, if_false, if_true, pure, EStateM.pure,
       List.nil_append, List.append_nil]
   · rw [hv1, hv, hpos]
